@@ -8,7 +8,10 @@ from __future__ import annotations
 import contextlib
 import copy
 import io
+import json
 import warnings
+
+import numpy as np
 
 from .. import env
 from ..core import HarnessError, Session, Violation, canon, digest
@@ -860,11 +863,40 @@ class C20Session(Session):
                 _BOOM["calls"] = 0
                 tr = objs[0].style.model3d.add_trace(backend="generic", constructor="Scatter3d",
                                                      kwargs={"x": [0, 1], "y": [0, 1], "z": [0, 1]}, updatefunc=_boom)
+            ctx = bool(op.get("ctx")) and not op.get("boom")
+            if ctx:
+                # show_context blocks (wave 10, C20_m): the keywords of one block are effective inside it and gone
+                # afterwards - the rendered figure without show keywords is the same before and after
+                def _fig(**k):
+                    with magpy.show_context(backend="plotly", return_fig=True, **k) as c:
+                        magpy.show(*objs)
+                    return c.show_return_value
+
+                ref_ctx = _fig_enc(_fig())
+                ref_plain = _fig_enc(magpy.show(*objs, backend="plotly", return_fig=True))
             try:
-                out = self._guard(lambda: magpy.show(*objs, backend="plotly", return_fig=True, **kw))
+                if ctx:
+                    got = {}
+                    out = self._guard(lambda: got.setdefault("fig", _fig(**kw)))
+                else:
+                    out = self._guard(lambda: magpy.show(*objs, backend="plotly", return_fig=True, **kw))
             finally:
                 if tr is not None:
                     objs[0].style.model3d.data.pop()
+            if ctx and out == "ok":
+                for leaf, v in op.get("items", []):
+                    if leaf == "opacity":
+                        bad = [(t.type, t.opacity) for t in got["fig"].data if t.opacity != v]
+                        if bad:
+                            raise Violation("show_kwarg_not_effective", f"show_context(style opacity={v!r}) drew "
+                                            f"{bad[:3]!r}", op="show", leaf="opacity", source="show")
+                if _fig_enc(_fig()) != ref_ctx:
+                    raise Violation("show_kwargs_leak", f"the figure of a show_context block without keywords differs "
+                                    f"after a block with {sorted(kw)!r}", op="show", source="show")
+                if _fig_enc(magpy.show(*objs, backend="plotly", return_fig=True)) != ref_plain:
+                    raise Violation("show_kwargs_leak", f"the figure of show() without style keywords differs after a "
+                                    f"show_context block with {sorted(kw)!r}", op="show", source="show")
+                self.probe("show_context_blocks")
             if sd is not None and sd != keep_sd:
                 raise Violation("caller_dict_mutated", "show(style={...}) changed the caller's dict", op="show")
             self.probe("real_show_call" + ("_updatefunc_raises" if op.get("boom") and out != "ok" else ""))
@@ -907,6 +939,11 @@ def _descendants(c):
         if hasattr(ch, "_children"):
             out.extend(_descendants(ch))
     return out
+
+
+def _fig_enc(fig):
+    """a rendered plotly figure as canonical text (arrays as lists)"""
+    return json.dumps(fig.to_plotly_json(), default=lambda a: np.asarray(a).tolist(), sort_keys=True)
 
 
 def _sigleaf(leaf):
@@ -1204,7 +1241,7 @@ class Sim:
         elif kind == "show":
             leaf = rng.choice(["opacity", "path_line_width", "color"])
             op = {"op": "show", "items": [[leaf, rng.choice(sm.VALID[sm.kind_of(leaf)])]] if rng.random() < 0.7 else [],
-                  "boom": rng.random() < 0.3, "style_dict": rng.random() < 0.4}
+                  "boom": rng.random() < 0.3, "style_dict": rng.random() < 0.4, "ctx": rng.random() < 0.5}
         else:
             raise HarnessError(kind)
         op["probe_kw"] = self._probe_kw(rng, cfg, sess)
